@@ -158,8 +158,16 @@ void newlines_brace_pair(Chunk *br_open)
 
                if (tmp_1->IsNewline())
                {
+                  Chunk *nl = tmp_1;
+
                   tmp_1 = tmp_1->GetPrev();                 // Issue #1825
                   newline_iarf_pair(tmp_1, tmp_1->GetNextNcNnl(), IARF_REMOVE);
+
+                  if (tmp_1->GetNext() == nl)
+                  {
+                     // it could not be removed (behind a comment, next to a directive): go on behind it
+                     tmp_1 = nl;
+                  }
                }
             }
             br_open->SetFlagBits(PCF_ONE_LINER);         // set the one liner flag if needed
